@@ -356,12 +356,25 @@ func c18R2(c *Ctx) {
 	// no early exit that skips entries: no break/continue in the loop; every path through an iteration passes the insert
 	var early []string
 	ast.Inspect(loop.Body, func(nd ast.Node) bool {
-		if b, ok := nd.(*ast.BranchStmt); ok {
+		if b, ok := nd.(*ast.BranchStmt); ok && b.Tok != token.CONTINUE {
 			early = append(early, b.Tok.String()+" at "+p.Pos(b))
 		}
 		return true
 	})
-	c.Check(len(early) == 0, "C18.R2", "the validation loop inspects every entry completely", p.Pos(loop), fn.Key(), "no break / continue", strings.Join(early, ", "))
+	c.Check(len(early) == 0, "C18.R2", "the validation loop is not left early", p.Pos(loop), fn.Key(), "no break / goto", strings.Join(early, ", "))
+	if len(loop.Body.List) > 0 {
+		// every path through an iteration that goes on to the next entry passed the registration of the
+		// entry's interface name (which stands behind its checks); a `continue` after it is harmless
+		first := loop.Body.List[0]
+		qi := NewPathQuery(p, fn, nil)
+		qi.ToBlock = loopHead(loop)
+		never := func(ast.Node) bool { return false }
+		start := func(k ast.Node) bool {
+			return k.Pos() >= first.Pos() && k.End() <= first.End()
+		}
+		w := qi.Escapes(start, never, isExactly(insert), nil)
+		c.Check(w == nil, "C18.R2", "the validation loop inspects every entry completely", p.Pos(loop), fn.Key(), "must-pass in every iteration: the entry's checks and the registration of its interface name", "path to the next entry: "+p.describePath(w))
+	}
 	// allocation type non-nil wherever it is dereferenced, and at the end of the iteration
 	n := 0
 	ast.Inspect(loop.Body, func(nd ast.Node) bool {
@@ -374,42 +387,39 @@ func c18R2(c *Ctx) {
 		return true
 	})
 	c.Floor("C18.R2", "allocation-type inspections in the loop", 1, n)
-	// fixed IP refused for pods without a stable name
+	// fixed IP refused for pods without a stable name: wherever an iteration ends and the loop goes on,
+	// the entry is not fixed-IP or the pod has a stable name (the other fixed-IP entries were denied)
 	q := NewPathQuery(p, fn, nil)
-	fe := NewFactEngine(p, fn)
-	var fixedCond ast.Expr
+	var typeSel ast.Expr
 	ast.Inspect(loop.Body, func(nd ast.Node) bool {
-		if is, ok := nd.(*ast.IfStmt); ok && strings.Contains(exprString(is.Cond), ".AllocationType.Type ==") && strings.Contains(exprString(is.Cond), "IPAllocTypeFixed") {
-			fixedCond = is.Cond
+		if sel, ok := nd.(*ast.SelectorExpr); ok && sel.Sel.Name == "Type" && strings.HasSuffix(exprString(sel.X), ".AllocationType") && typeSel == nil {
+			typeSel = sel
 		}
 		return true
 	})
-	if fixedCond == nil {
-		c.Bad("C18.R2", "fixed-IP entries are examined", p.Pos(loop), fn.Key(), "if entry.AllocationType.Type == IPAllocTypeFixed { … }", "not found")
+	var nameCall ast.Expr
+	ast.Inspect(loop.Body, func(k ast.Node) bool {
+		if call, ok := k.(*ast.CallExpr); ok && calleeName(info, call) == "IsFixedNamePod" && nameCall == nil {
+			nameCall = call
+		}
+		return true
+	})
+	if typeSel == nil || nameCall == nil {
+		c.Bad("C18.R2", "fixed-IP entries are examined", p.Pos(loop), fn.Key(), "the entry's allocation type and the pod's stable name are tested in the loop", "not found")
 	} else {
-		q.StopBlock = loopHead(loop)
-		// the assumption "the pod has no stable name": every IsFixedNamePod(…) call of the handler is false
-		assume := fT
-		ast.Inspect(fn.Decl.Body, func(k ast.Node) bool {
-			if call, ok := k.(*ast.CallExpr); ok && calleeName(info, call) == "IsFixedNamePod" {
-				assume = mkAnd(assume, mkNot(fe.Cond(call)))
+		req := exprString(typeSel) + " != v1beta1.IPAllocTypeFixed || " + exprString(nameCall)
+		c.RequireAtEnd("C18.R2", "a fixed-IP entry of a pod without a stable name is denied", fn, loop.Body, req, nil)
+		ast.Inspect(loop.Body, func(nd ast.Node) bool {
+			switch t := nd.(type) {
+			case *ast.FuncLit, *ast.ForStmt, *ast.RangeStmt:
+				return false
+			case *ast.BranchStmt:
+				if t.Tok == token.CONTINUE && t.Pos() > insert.End() {
+					c.Require("C18.R2", "a fixed-IP entry of a pod without a stable name is denied (at continue)", fn, t, req, nil)
+				}
 			}
 			return true
 		})
-		q.Prune = func(cond ast.Expr, takeTrue bool) bool {
-			if cond == fixedCond {
-				return !takeTrue
-			}
-			v, known := decideUnder(fe, assume, fe.Cond(cond))
-			return known && v != takeTrue
-		}
-		denied := containsNode(func(k ast.Node) bool {
-			call, ok := k.(*ast.CallExpr)
-			return ok && calleeName(info, call) == "Denied"
-		})
-		ok := alwaysReachesFrom(q, isExactly(fixedCond), denied)
-		c.Check(ok, "C18.R2", "a fixed-IP entry of a pod without a stable name is denied", p.Pos(fixedCond), fn.Key(), "Fixed ∧ ¬IsFixedNamePod(pod) ⇒ every path reaches a Denied return", "some path continues")
-		q.StopBlock, q.Prune = nil, nil
 	}
 	// membership changes all precede the loop; the marshal follows it
 	var marshal *ast.CallExpr
